@@ -264,6 +264,8 @@ def inline_cell_reads(f: Func) -> Func:
             return n
 
     node = Sub().visit(node)
+    from .normalize import cell_augassign
+    node = ast.fix_missing_locations(cell_augassign(node))      # `A[k] = t + 1` with t = A[k]  is  `A[k] += 1`
     return Func(module=f.module, qualname=f.qualname, node=node, cls=f.cls, parent=f.parent, decorators=list(f.decorators))
 
 
